@@ -336,6 +336,9 @@ def draw_lookup(rng, sig):
     return args
 
 
+FLOAT_FNS = set(FAMILY['C16']['fns'])
+
+
 def draw_args(rng, sig):
     out = []
     for k in sig:
@@ -709,6 +712,11 @@ def agree(c, im, model):
         return True
     loose = c.get('fn') in fx.AGGREGATES
     r = fx.record_matches(rec, im['rec'], ulps=c.get('ulps', 4), rel=1e-9, loose=loose)
+    if r is False and c.get('fn') in FLOAT_FNS:
+        # the generic real-valued models answer in floats; Python keeps an int where every operand was one (PV(0,0,100) is the int 0)
+        res = im['rec'].get('result')
+        if isinstance(res, int) and not isinstance(res, bool) and abs(res) < 2 ** 53:
+            r = fx.record_matches(rec, dict(im['rec'], result=float(res)), ulps=c.get('ulps', 4), rel=1e-9)
     return r is not False
 
 
